@@ -92,7 +92,7 @@ func DrawConf(c *choice.Stream) *Conf {
 	if cf.Comp == ch.CompressionLZ4HC {
 		cf.Level = c.Pick("comp.level", 0, 1, 3, 9, 12, 13)
 	}
-	cf.ReadTimeout = []time.Duration{0, 10 * time.Millisecond, time.Second}[c.Weighted("readtimeout", 4, 1, 1)]
+	cf.ReadTimeout = []time.Duration{0, 10 * time.Millisecond, time.Second, ch.NoTimeout}[c.Weighted("readtimeout", 8, 2, 2, 1)]
 	cf.DebugLog = c.Bool("debuglog", 1, 4)
 	cf.Otel = c.Bool("otel", 1, 4) // instrumented code path (global no-op providers unless C12 installs an SDK)
 	cf.FrameChunk = c.Pick("srv.framechunk", 0, 0, 0, 3, 33, 1000)
@@ -140,7 +140,9 @@ func (cf *Conf) options() ch.Options {
 }
 
 func (cf *Conf) EffReadTimeout() time.Duration {
-	if cf.ReadTimeout == 0 {
+	if cf.ReadTimeout <= 0 {
+		// the default; also the scale used for bounds and pauses when the client
+		// runs without a read timeout (ch.NoTimeout)
 		return ch.DefaultReadTimeout
 	}
 	return cf.ReadTimeout
